@@ -13,6 +13,8 @@ pub enum World {
     Jax { transitive: bool, obo: Vec<u8>, genes: Vec<u8>, hpoa: Vec<u8> },
     /// the script with `count` add_* calls (tag 0/1/2, ids first..) after connect_all_terms
     Bulk(Script, u8, u32, u32),
+    /// `count` new_term calls (ids first, first+stride, ..; name "t"), nothing else, build_minimal
+    Many { version: (u16, u8, u8), first: u32, stride: u32, count: u32 },
 }
 
 pub struct Built {
@@ -26,6 +28,15 @@ impl World {
             World::Builder(s) => V::C("WBuilder", vec![s.to_v()]),
             World::Bytes(b) => V::C("WBytes", vec![crate::v::bytes(b)]),
             World::Bulk(s, tag, first, count) => V::C("WBulk", vec![s.to_v(), crate::v::n(u32::from(*tag)), crate::v::n(*first), crate::v::n(*count)]),
+            World::Many { version, first, stride, count } => V::C(
+                "WMany",
+                vec![
+                    V::T(vec![crate::v::n(u32::from(version.0)), crate::v::n(u32::from(version.1)), crate::v::n(u32::from(version.2))]),
+                    crate::v::n(*first),
+                    crate::v::n(*stride),
+                    crate::v::n(*count),
+                ],
+            ),
             World::Sub(w, root, leaves) => V::C("WSub", vec![w.to_v(), crate::v::n(*root), crate::v::ln(leaves)]),
             World::Jax { transitive, obo, genes, hpoa } => V::C(
                 "WJax",
@@ -38,6 +49,19 @@ impl World {
         match self {
             World::Builder(s) => build::run(s).map(|(codes, result)| Built { codes, result }),
             World::Bulk(s, tag, first, count) => build::run_bulk(s, Some((*tag, *first, *count))).map(|(codes, result)| Built { codes, result }),
+            World::Many { version, first, stride, count } => {
+                let (version, first, stride, count) = (*version, *first, *stride, *count);
+                crate::catch(std::panic::AssertUnwindSafe(move || {
+                    let mut b = hpo::builder::Builder::new();
+                    b.set_hpo_version(version);
+                    for i in 0..count {
+                        b.new_term("t", first + i * stride);
+                    }
+                    let b = b.terms_complete().connect_all_terms();
+                    b.calculate_information_content().map(|b| b.build_minimal())
+                }))
+                .map(|result| Built { codes: vec![], result })
+            }
             World::Bytes(b) => crate::catch(std::panic::AssertUnwindSafe(|| Ontology::from_bytes(b))).map(|result| Built { codes: vec![], result }),
             World::Jax { transitive, obo, genes, hpoa } => {
                 static COUNTER: std::sync::atomic::AtomicU64 = std::sync::atomic::AtomicU64::new(0);
